@@ -6,6 +6,7 @@ package main
 
 import (
 	"fmt"
+	"go/token"
 	"go/types"
 	"sort"
 	"strings"
@@ -16,8 +17,11 @@ import (
 func init() {
 	register(&propDef{
 		id:      "C05",
-		explain: "Structural necessary condition of 'setters cannot inject header lines': every value that can be stored into the serialised storage of RequestHeader / ResponseHeader (dedicated byte-slice fields, header field keys and values, cookies, trailers) is clean for CR/LF on every way it can be produced: a constant, a numeric/date formatter result, the result of (or a buffer passed in place through) the CR/LF neutraliser or a helper that applies it on every path, content of another checked storage field, or - for unexported helpers - clean at every call site. Exported parameters are the taint sources. The neutraliser's shape is re-checked on every run. Parse paths (bytes taken from the wire by the header scanner) are outside this rule. Not decided: that a peer sees exactly one message (spaces in method/URI, ':' in names, non-ASCII), documented caller-canonical keys of SetCanonical.",
-		run:     func(p *Prog, r *Report) { runTaintProp(p, r, "C05") },
+		explain: "Structural necessary condition of 'setters cannot inject header lines': every value that can be stored into the serialised storage of RequestHeader / ResponseHeader (dedicated byte-slice fields, header field keys and values, cookies, trailers) is clean for CR/LF on every way it can be produced: a constant, a numeric/date formatter result, the result of (or a buffer passed in place through) the CR/LF neutraliser or a helper that applies it on every path, content of another checked storage field, or - for unexported helpers - clean at every call site. Exported parameters are the taint sources. The neutraliser's shape is re-checked on every run. Parse paths (bytes taken from the wire by the header scanner) are outside this rule. (R-proxy) every string parameter that the HTTP-proxy dialer writes into its CONNECT request is tested as a whole for CR and LF on the way to the write (the 'found' outcome leaves the function), or is a base64 encoding at every call site. Not decided: that a peer sees exactly one message (spaces in method/URI, ':' in names, non-ASCII), documented caller-canonical keys of SetCanonical.",
+		run: func(p *Prog, r *Report) {
+			runTaintProp(p, r, "C05")
+			proxyTargetWholeTested(p, r)
+		},
 	})
 	register(&propDef{
 		id:      "C06",
@@ -382,4 +386,224 @@ func cookieParserOneFieldPerAttribute(p *Prog, r *Report) {
 			"fields written under this attribute: "+joinSorted(fields)+" - parsing this attribute also overwrites other attributes of the cookie (a producing-side setter with side effects is used by the parser), so the header does not parse back with the attributes that were set")
 	}
 	r.Floor("R-attr", "attribute branches of the response-cookie parser", n, 8)
+}
+
+// proxyTargetWholeTested (C05.R-proxy): the HTTP-proxy dialer writes the CONNECT request by concatenating strings.
+// Every string parameter that flows into the bytes written to the proxy is, on every path to the write, tested as a
+// whole for CR and LF (strings.ContainsAny / IndexAny on the parameter itself, with a constant set holding both, the
+// "found" outcome leaving the function) - or every caller in the module passes a base64 encoding. A test of only a
+// part of the string (the host part, say) lets a line break in the rest end the message early.
+func proxyTargetWholeTested(p *Prog, r *Report) {
+	var fn *ssa.Function
+	for _, f := range p.funcsIn("fasthttpproxy") {
+		for _, b := range f.Blocks {
+			for _, in := range b.Instrs {
+				if bo, ok := in.(*ssa.BinOp); ok && bo.Op == token.ADD {
+					if s, ok := stringConst(bo.X); ok && strings.HasPrefix(s, "CONNECT ") {
+						fn = f
+					}
+				}
+			}
+		}
+	}
+	if fn == nil {
+		r.Undecided("R-proxy", "fasthttpproxy: the function that builds the CONNECT request", "not found")
+		return
+	}
+	// the write: an invoke of Write on a net.Conn
+	var write ssa.Instruction
+	var written ssa.Value
+	allCalls(fn, func(b *ssa.BasicBlock, c ssa.CallInstruction) {
+		if c.Common().IsInvoke() && c.Common().Method.Name() == "Write" && len(c.Common().Args) == 1 {
+			write, written = c, c.Common().Args[0]
+		}
+	})
+	if write == nil {
+		r.Undecided("R-proxy", funcName(fn)+": write of the request", "not found")
+		return
+	}
+	n := 0
+	for _, prm := range fn.Params {
+		if bt, ok := prm.Type().Underlying().(*types.Basic); !ok || bt.Kind() != types.String {
+			continue
+		}
+		if !derivesFromValue(written, prm) {
+			continue
+		}
+		n++
+		// whole-string test that dominates the write on its "not found" side
+		tested := false
+		for _, b := range fn.Blocks {
+			for _, in := range b.Instrs {
+				c, ok := in.(*ssa.Call)
+				if !ok || c.Call.StaticCallee() == nil || c.Call.StaticCallee().Pkg == nil || c.Call.StaticCallee().Pkg.Pkg.Path() != "strings" || len(c.Call.Args) != 2 {
+					continue
+				}
+				nm := c.Call.StaticCallee().Name()
+				if nm != "ContainsAny" && nm != "IndexAny" {
+					continue
+				}
+				if c.Call.Args[0] != ssa.Value(prm) {
+					continue
+				}
+				set, ok := stringConst(c.Call.Args[1])
+				if !ok || !strings.Contains(set, "\r") || !strings.Contains(set, "\n") {
+					continue
+				}
+				// the write is not reachable from the call without passing its branch on the "clean" side: the found side returns
+				for _, g := range guardsOfDepth(write.Block(), 0) {
+					if g.Cond == ssa.Value(c) && !g.Pol {
+						tested = true
+					}
+					if bo, ok := g.Cond.(*ssa.BinOp); ok && bo.X == ssa.Value(c) {
+						tested = true
+					}
+				}
+			}
+		}
+		if !tested {
+			// produced by the callers as a base64 encoding?
+			allB64, ncall := true, 0
+			idx := -1
+			for i, q := range fn.Params {
+				if q == prm {
+					idx = i
+				}
+			}
+			var callers []*ssa.Function
+			for _, top := range p.funcsIn("fasthttpproxy") {
+				callers = append(callers, funcAndClosures(top)...)
+			}
+			callersAndAll := callers
+			for _, caller := range callers {
+				allCalls(caller, func(b *ssa.BasicBlock, c ssa.CallInstruction) {
+					if c.Common().StaticCallee() != fn || idx >= len(c.Common().Args) {
+						return
+					}
+					ncall++
+					// every way the value can be produced is a base64 encoding or a CR/LF-free constant
+					seen := map[ssa.Value]bool{}
+					var safe func(v ssa.Value, d int) bool
+					safe = func(v ssa.Value, d int) bool {
+						if v == nil || d > 10 {
+							return false
+						}
+						if seen[v] {
+							return true
+						}
+						seen[v] = true
+						switch w := v.(type) {
+						case *ssa.Const:
+							s, isS := stringConst(w)
+							return isS && !strings.ContainsAny(s, "\r\n")
+						case *ssa.Call:
+							f := w.Call.StaticCallee()
+							if f == nil {
+								return false
+							}
+							if f.Pkg != nil && f.Pkg.Pkg.Path() == "encoding/base64" {
+								return true
+							}
+							return false
+						case *ssa.Extract:
+							c, isCall := w.Tuple.(*ssa.Call)
+							if !isCall || c.Call.StaticCallee() == nil || !inModule(c.Call.StaticCallee()) || c.Call.StaticCallee().Blocks == nil {
+								return false
+							}
+							for _, rb := range c.Call.StaticCallee().Blocks {
+								if rt, isRet := rb.Instrs[len(rb.Instrs)-1].(*ssa.Return); isRet {
+									if w.Index >= len(rt.Results) || !safe(rt.Results[w.Index], d+1) {
+										return false
+									}
+								}
+							}
+							return true
+						case *ssa.Phi:
+							for _, e := range w.Edges {
+								if !safe(e, d+1) {
+									return false
+								}
+							}
+							return true
+						case *ssa.FreeVar:
+							// captured from the enclosing function: what every closure creation binds to it
+							cf := w.Parent()
+							par := cf.Parent()
+							if par == nil {
+								return false
+							}
+							idxFV := -1
+							for i, fv := range cf.FreeVars {
+								if fv == w {
+									idxFV = i
+								}
+							}
+							nb := 0
+							for _, pb := range par.Blocks {
+								for _, pi := range pb.Instrs {
+									if mc, isMC := pi.(*ssa.MakeClosure); isMC && mc.Fn == ssa.Value(cf) && idxFV >= 0 && idxFV < len(mc.Bindings) {
+										nb++
+										if !safe(mc.Bindings[idxFV], d+1) {
+											return false
+										}
+									}
+								}
+							}
+							return nb > 0
+						case *ssa.Alloc:
+							// a captured variable: every value stored into it
+							nst := 0
+							for _, ref := range *w.Referrers() {
+								if st, isSt := ref.(*ssa.Store); isSt && st.Addr == ssa.Value(w) {
+									nst++
+									if !safe(st.Val, d+1) {
+										return false
+									}
+								}
+							}
+							return nst > 0
+						case *ssa.UnOp:
+							if w.Op == token.MUL {
+								switch w.X.(type) {
+								case *ssa.FreeVar, *ssa.Alloc:
+									return safe(w.X, d+1)
+								}
+							}
+							// a field: every value stored there
+							fa, isFA := w.X.(*ssa.FieldAddr)
+							if !isFA || w.Op != token.MUL {
+								return false
+							}
+							fv := fieldVar(fa.X.Type(), fa.Field)
+							nst := 0
+							for _, g := range callersAndAll {
+								for _, gb := range g.Blocks {
+									for _, gi := range gb.Instrs {
+										if st, isSt := gi.(*ssa.Store); isSt {
+											if fa2, ok2 := st.Addr.(*ssa.FieldAddr); ok2 && fieldVar(fa2.X.Type(), fa2.Field) == fv {
+												nst++
+												if !safe(st.Val, d+1) {
+													return false
+												}
+											}
+										}
+									}
+								}
+							}
+							return nst > 0
+						}
+						return false
+					}
+					ok := safe(c.Common().Args[idx], 0)
+					if !ok {
+						allB64 = false
+					}
+				})
+			}
+			tested = ncall > 0 && allB64
+		}
+		r.Check("R-proxy", fmt.Sprintf("%s: parameter %s, which is written to the proxy, is tested as a whole for CR/LF (or is a base64 encoding at every call)", funcName(fn), prm.Name()), tested, p.Pos(write.Pos()),
+			"the string reaches the CONNECT request without a CR/LF test of the whole string: a line break in the untested part ends the CONNECT message early and what follows is read by the proxy as a second, caller-chosen request")
+	}
+	r.Floor("R-proxy", "string parameters written into the CONNECT request", n, 1)
 }
